@@ -432,7 +432,8 @@ def pull_impl(mode, pred, n, events, raws=None, seed=None):
 
 
 def model_request(mode, sx_pred, n, fuel, raws) -> str:
-    return f"gen {mode} {fuel} {n} {S.show(sx_pred)} ({' '.join(str(r) for r in raws)})"
+    body = " ".join(str(r) if k == 1 else f"(r {r} {k})" for r, k in rle(raws))
+    return f"gen {mode} {fuel} {n} {S.show(sx_pred)} ({body})"
 
 
 def parse_run(line):
@@ -780,6 +781,30 @@ import json as _json
 import random as _random
 
 
+def long_specs(mode):
+    """Cheap unbounded streams, read far beyond two rounds of the 1 + 10 + 100 windows of random_ints."""
+    ints = [0, 5, 150, -150, 1000, -1000, MAXS, -MAXS]
+    floats = [0.0, 2.0, -1e-7, 2e6]
+    out = []
+    for h in (("ge", "gt", "le", "lt") if mode == "T" else ("ge", "gt")):
+        out += [(h, v) for v in ints + floats]
+    if mode == "T":
+        out += [("inst", ("int",)), ("inst", ("float",)), ("inst", ("str",)), ("notin", [2, "foo", 4]), ("notin", [2, 3]), ("notnone",),
+                ("or", ("ge", 150), ("le", -150)), ("and", ("ge", -150), ("le", 150)), ("and", ("inst", ("int",)), ("ge", 150))]
+    else:
+        out += [("eq", 2), ("eq", "foo"), ("in", [2, 3, 4]), ("in", ["a", "b"]), ("inst", ("int",)), ("inst", ("str",)), ("ff",), ("none",), ("falsy",),
+                ("or", ("ge", 150), ("gt", -150)), ("and", ("ge", -150), ("gt", 150))]
+    return out
+
+
+def long_tapes(rng, n):
+    def tapes_for(s):
+        b = spec_bounds(s)
+        return [("lo", [-BIG] * (6 * n)), ("hi", [BIG] * (6 * n)), ("mix", make_tape(rng, 6 * n, "mix", b))]
+
+    return tapes_for
+
+
 def explain_safety(mode, spec, outcome):
     """Known findings (narrow: kind + parameter region + how the value fails)."""
     raised = isinstance(outcome, str) and outcome.startswith("raised")
@@ -839,6 +864,27 @@ def safety_check(pid, mode, tier):
                 evals.append((c, i, v, r))
         if c.items:
             chk.nontrivial.add((show_spec(c.spec), c.style))
+    # ---- long prefixes: more than two full rounds of the int windows (positions >= 111, >= 222 of the stream)
+    ln = 260 if quick else 700
+    lcases = run_cases(mode, long_specs(mode), ln, long_tapes(rng, ln), rng)
+    ldis = [{"input": c.input(), **c.dis} for c in lcases if c.dis]
+    chk.add_corr(("genTrue" if want else "genFalse") + "/long-prefix", len(lcases), ldis,
+                 note=f"first {ln} next() results of {len(long_specs(mode))} cheap unbounded requests on tapes all-low, all-high, long mixed: values, request log, status")
+    long_judged = 0
+    for c in lcases:
+        for i, v in enumerate(c.items):
+            r = call(c.pred, v)
+            long_judged += 1
+            if r is not want:
+                out = r if isinstance(r, str) else repr(r)
+                chk.add_failure({**c.input(), "position": i}, {"what": f"generate_{'true' if want else 'false'} yielded a value on which the predicate does not return {want} (long prefix)", "value": repr(v)[:300], "predicate_returned": out},
+                                explain_safety(mode, c.spec, r))
+        if len(c.items) > 222:
+            chk.nontrivial.add((show_spec(c.spec), c.style, "long"))
+    judged += long_judged
+    dis = dis + ldis
+    chk.extra["long_prefix"] = {"specs": len(long_specs(mode)), "cases": len(lcases), "length": ln, "values_judged": long_judged,
+                                "streams_longer_than_two_window_rounds": sum(1 for c in lcases if len(c.items) > 222)}
     # ---- which cases lie inside the region the theorem covers (the Lean guard itself, through the driver)
     uniq = {}
     for c in cases:
